@@ -175,9 +175,15 @@ def accessor(r, t, other):
     return k
 
 
+_EQ_MSG = []
+
+
 def equal_verdicts(a, b):
-    return (a == b, not (a != b),
-            a.descriptive_equality(b) == 'Tables appear equal')
+    if not _EQ_MSG:
+        # the wording of descriptive_equality is not part of the property:
+        # the reference text is what a table says about its own copy
+        _EQ_MSG.append(a.descriptive_equality(a.copy()))
+    return (a == b, not (a != b), a.descriptive_equality(b) == _EQ_MSG[0])
 
 
 def export_views(ctx, t, tag):
@@ -412,7 +418,8 @@ def run_case(ctx, index):
         ddesc = dict(desc, difference=nm, other=s2.describe())
         for x, y in ((mine, other), (other, mine)):
             if (x == y) or not (x != y) or \
-                    x.descriptive_equality(y) == 'Tables appear equal':
+                    x.descriptive_equality(y) == (_EQ_MSG[0] if _EQ_MSG else
+                                                   'Tables appear equal'):
                 raise Violation('C16/different-content-equal/' + nm,
                                 'tables differing in exactly one %s compare '
                                 'equal; case=%r' % (nm, ddesc))
